@@ -18,7 +18,8 @@ META = {
             "affine-in-target-coordinates and random fields: range, constant, affine exactness, the four chosen pixels lie in the four "
             "quadrants, value == weights . data, numpy == xarray for all chunkings; further fields: a constant of any sign / magnitude (-1e13..1e13) and "
             "plateaus (levels), float32 or float64; further sources: strips of 65600..70000 x 3..6 pixels (areas lying either way, swaths) with small targets "
-            "before / across / beyond line 65536 in the same or another CRS. Non-trivial: at least one location with a value "
+            "before / across / beyond line 65536 in the same or another CRS; swath / grid sources whose lon/lat arrays are transposed views, Fortran-ordered, strided or "
+            "reversed views (same values, other memory layout): affine / constant / range, equal to the result for C-contiguous copies, numpy == xarray. Non-trivial: at least one location with a value "
             "and one without, or a non-rectangular quadrilateral. Distinct = distinct canonical input.",
     "assumptions": ["np.sqrt is a parameter of the model (exact square root assumed in the theorems; 18-digit rational root in the driver)",
                     "float rounding: fractional distances compared at 1e-6, affine reproduction at 1e-6 of the data range",
@@ -747,9 +748,244 @@ def suite_resamplers(ctx):
                                  inpx, None, tags={"cause": "numpy-vs-xarray-value"}, size=n_out)
 
 
+# -----------------------------------------------------------------------------------------------------------------------
+# memory layout of the source coordinates
+# -----------------------------------------------------------------------------------------------------------------------
+
+LAYOUTS = ("transposed_view", "fortran", "strided_view", "reversed_view")
+
+
+def _relayout(a, layout):
+    """the same array as far as numpy semantics go (same shape, dtype, np.array_equal) in another memory layout: element [row, col] is the
+    coordinate / value of pixel (row, col) whatever the strides are"""
+    a = np.asarray(a)
+    if layout == "c_contiguous":
+        out = np.ascontiguousarray(a)
+    elif layout == "transposed_view":            # .T of an array stored as (column, row): a file written the other way round
+        out = np.ascontiguousarray(a.T).T
+    elif layout == "fortran":                    # np.asfortranarray / order='F' readers
+        out = np.asfortranarray(a)
+    elif layout == "strided_view":               # every second column of a wider array
+        big = np.zeros(a.shape[:-1] + (2 * a.shape[-1],), dtype=a.dtype)
+        big[..., ::2] = a
+        out = big[..., ::2]
+    else:                                        # negative stride along the rows
+        out = np.ascontiguousarray(a[::-1])[::-1]
+    assert out.shape == a.shape and out.dtype == a.dtype and np.array_equal(out, a, equal_nan=True)
+    return out
+
+
+def _layout_sources(ctx, rng):
+    """(label, lons, lats, kind, target, radius, neighbours): swath / grid sources with rows != cols, lon/lat arrays C-contiguous here"""
+    import pyproj
+    from pyresample.geometry import AreaDefinition
+    out = []
+    kinds = ["proj-lattice", "lonlat-mesh", "tilted-swath"]
+    if not ctx.quick:
+        kinds = kinds * 3
+    for n, kind in enumerate(kinds):
+        lat_0, lon_0 = rng.uniform(-65.0, 65.0), rng.uniform(-170.0, 170.0)
+        laea = {"proj": "laea", "lat_0": round(lat_0, 2), "lon_0": round(lon_0, 2), "ellps": "WGS84"}
+        while True:
+            rows, cols = rng.randint(22, 44), rng.randint(20, 40)
+            if abs(rows - cols) >= 3:
+                break
+        if kind == "proj-lattice":
+            # a rotated, slightly curved lattice of `pix` m pixels in the target's projection (scan lines bending along the track)
+            pix = rng.choice([2000.0, 3000.0, 5000.0])
+            th = math.radians(rng.uniform(-25.0, 25.0))
+            bend = rng.uniform(-0.8, 0.8) * pix / 3000.0
+            ii, jj = np.meshgrid(np.arange(rows) - rows / 2, np.arange(cols) - cols / 2, indexing="ij")
+            x = (jj * math.cos(th) - ii * math.sin(th)) * pix + bend * ii ** 2
+            y = -(jj * math.sin(th) + ii * math.cos(th)) * pix
+            lons, lats = pyproj.Proj(laea)(x, y, inverse=True)
+            half_w, half_h = 0.33 * cols * pix, 0.33 * rows * pix
+            radius, neighbours = 10.0 * pix, 32
+            sw_kind = "swath"
+        elif kind == "lonlat-mesh":
+            step = rng.choice([0.2, 0.35])
+            lons, lats = np.meshgrid(lon_0 + (np.arange(cols) - cols / 2) * step / max(0.3, math.cos(math.radians(lat_0))),
+                                     lat_0 - (np.arange(rows) - rows / 2) * step)
+            half_w, half_h = 0.33 * cols * step * 111000.0, 0.33 * rows * step * 111000.0
+            radius, neighbours = 2.8 * step * 111000.0, 32
+            sw_kind = rng.choice(["grid", "swath"])
+        else:
+            span = rng.choice([6.0, 9.0])
+            lons, lats = kc.swath(rng, rows, cols, lon_0, lat_0, span)
+            half_w = half_h = 0.3 * span * 111000.0
+            radius, neighbours = 6.0 * span * 111000.0 / min(rows, cols), 32
+            sw_kind = "swath"
+        tw, th_ = rng.randint(14, 26), rng.randint(12, 22)
+        ox, oy = rng.uniform(-0.25, 0.25) * half_w, rng.uniform(-0.25, 0.25) * half_h      # a little off-centre: part of some targets has no source around
+        tgt = AreaDefinition(f"lt{n}", "t", "t", laea, tw, th_, (ox - half_w, oy - half_h, ox + half_w, oy + half_h))
+        out.append((f"{kind}-{sw_kind}-{rows}x{cols}", np.ascontiguousarray(lons, dtype=float), np.ascontiguousarray(lats, dtype=float), sw_kind, tgt, radius, neighbours))
+    return out
+
+
+def suite_source_memory_layout(ctx):
+    """SwathDefinition / GridDefinition sources whose lon/lat arrays hold the same values in another memory layout (transposed view of an array stored
+    as (column, row), Fortran order, strided and reversed views).  Pixel (row, col) of the source is lons[row, col], lats[row, col], data[row, col]
+    whatever the strides are, so through NumpyBilinearResampler: a field that is affine in the target's projection coordinates is reproduced, a
+    constant is reproduced, values stay in the data range, the result equals the one for C-contiguous copies of the same arrays, and the
+    XArrayBilinearResampler on the same source gives the same result for every chunking.  Locations with no source pixel in the lower-right
+    quadrant that nevertheless get a value are the known finding F21 and are tagged as such (the spy on the solver identifies them from the
+    corner COORDINATES the library selected)."""
+    import random
+
+    import dask
+    import dask.array as da
+    import xarray as xr
+
+    import pyresample.bilinear.xarr as X
+    from pyresample.bilinear import NumpyBilinearResampler, XArrayBilinearResampler
+    from pyresample.bilinear import _base as B
+    from pyresample.geometry import GridDefinition, SwathDefinition
+    rng = random.Random(f"C06-layout-{ctx.seed}")       # own stream: the suites above keep theirs
+    for label, lons_c, lats_c, sw_kind, tgt, radius, neighbours in _layout_sources(ctx, rng):
+        Geo = GridDefinition if sw_kind == "grid" else SwathDefinition
+        shape = lons_c.shape
+        n_out = tgt.size
+        tx, ty = (np.asarray(v, float) for v in tgt.get_proj_coords())
+        sx, sy, sok = _src_xy_in_target(Geo(lons_c, lats_c), tgt)
+        span = max(np.nanmax(sx) - np.nanmin(sx), np.nanmax(sy) - np.nanmin(sy))
+        a0, a1, a2 = 2.0, 3.0 / span, -1.7 / span
+        f_aff = lambda x, y: a0 + a1 * x + a2 * y
+        g = np.random.default_rng(rng.getrandbits(32))
+        fields = {"affine": np.ascontiguousarray(np.where(sok, f_aff(np.where(sok, sx, 0), np.where(sok, sy, 0)), 0.0)),
+                  "constant": np.full(shape, 7.25),
+                  "random": g.uniform(-5.0, 5.0, size=shape)}
+        first = rng.choice(["transposed_view", "fortran"])
+        layouts = ["c_contiguous", first, rng.choice([l for l in LAYOUTS if l != first])] if ctx.quick else ["c_contiguous"] + list(LAYOUTS)
+        ref = {}
+        for layout in layouts:
+            lons, lats = _relayout(lons_c, layout), _relayout(lats_c, layout)
+            src = Geo(lons, lats)
+            data_layout = layout if rng.random() < 0.5 else "c_contiguous"
+            inp0 = {"pair": label, "source_kind": sw_kind, "source": _desc(Geo(lons_c, lats_c)), "target": _desc(tgt), "radius": radius, "neighbours": neighbours,
+                    "lonlat_layout": layout, "lonlat_flags": {"c_contiguous": bool(lons.flags["C_CONTIGUOUS"]), "f_contiguous": bool(lons.flags["F_CONTIGUOUS"]),
+                                                              "strides": list(lons.strides)}, "data_layout": data_layout, "reduce_data": False}
+            cap = {}
+            orig, orig_corners = B._get_fractional_distances, B._get_four_closest_corners
+
+            def spy(corner_points, out_x, out_y, _cap=cap, _orig=orig):
+                _cap["cp"], _cap["out"] = corner_points, (out_x, out_y)
+                return _orig(corner_points, out_x, out_y)
+
+            def spy_corners(in_x, in_y, out_x, out_y, neighbours, index_array, _cap=cap, _orig=orig_corners):
+                _cap["cand"] = (np.array(in_x, float), np.array(in_y, float), np.array(out_x, float), np.array(out_y, float))
+                return _orig(in_x, in_y, out_x, out_y, neighbours, index_array)
+            B._get_fractional_distances, B._get_four_closest_corners = spy, spy_corners
+            try:
+                with warnings.catch_warnings(), np.errstate(all="ignore"):
+                    warnings.simplefilter("ignore")
+                    rs = NumpyBilinearResampler(src, tgt, radius, neighbours=neighbours, reduce_data=False)
+                    rs.get_bil_info()
+            except Exception as e:  # noqa
+                ctx.fail("bilinear.NumpyBilinearResampler.get_bil_info", f"raised {type(e).__name__}: {str(e)[:150]} for source lon/lats in layout {layout}", inp0, None,
+                         tags={"cause": "raises", "layout": layout}, size=n_out)
+                continue
+            finally:
+                B._get_fractional_distances, B._get_four_closest_corners = orig, orig_corners
+            if "cp" not in cap or "cand" not in cap or not hasattr(rs, "_valid_output_indices"):
+                ctx.count("layout.no_info")
+                continue
+            cp = [np.asarray(c, float) for c in cap["cp"]]
+            cin_x, cin_y, cout_x, cout_y = cap["cand"]
+            with np.errstate(invalid="ignore"):
+                lr_exists = ((cin_x > cout_x[:, None]) & (cin_y < cout_y[:, None])).any(axis=1)
+            t_, s_ = np.asarray(rs.bilinear_t, float), np.asarray(rs.bilinear_s, float)
+            has = ~np.isnan(t_) & ~np.isnan(s_)
+            voi = np.asarray(rs._valid_output_indices)
+
+            def full(v):
+                o = np.zeros(n_out, dtype=bool)
+                o[voi] = v
+                return o.reshape(tgt.shape)
+            has2, miss2 = full(has), full(has & np.isnan(cp[3][:, 0]) & ~lr_exists)
+            ctx.count(f"layout.{layout}" + (".not_c_contiguous" if not lons.flags["C_CONTIGUOUS"] else ""))
+            site = "bilinear.NumpyBilinearResampler.get_sample_from_bil_info"
+            for kind, base in fields.items():
+                data = _relayout(base, data_layout)
+                inp = {**inp0, "field": kind}
+                with warnings.catch_warnings(), np.errstate(all="ignore"):
+                    warnings.simplefilter("ignore")
+                    res = np.asarray(rs.get_sample_from_bil_info(data, fill_value=np.nan), float).reshape(tgt.shape)
+                got = ~np.isnan(res)
+                ctx.count("layout.values_produced", int(got.sum()))
+                ctx.case("layout-values", (label, layout, data_layout, kind, "numpy"), nontrivial=bool(got.any() and not lons.flags["C_CONTIGUOUS"]),
+                         sample={"input": inp, "with_value": int(got.sum()), "of": int(n_out)} if kind == "affine" and layout != "c_contiguous" else None)
+                if (got != has2).any():
+                    idx = tuple(map(int, np.argwhere(got != has2)[0]))
+                    ctx.fail(site, f"value / fractional-distance pattern mismatch at {idx}", inp, None, tags={"cause": "pattern", "layout": layout}, size=n_out)
+                lo, hi = float(base.min()), float(base.max())
+                eps = 1e-6 * (1 + hi - lo)
+                if (got & ((res < lo - eps) | (res > hi + eps))).any():
+                    idx = tuple(map(int, np.argwhere(got & ((res < lo - eps) | (res > hi + eps)))[0]))
+                    ctx.fail(site, f"{kind} field: value {res[idx]} at {idx} outside the source range [{lo}, {hi}]", inp, None, tags={"cause": "range", "field": kind, "layout": layout}, size=n_out)
+                if kind == "constant" and (got & (np.abs(res - 7.25) > 1e-9)).any():
+                    idx = tuple(map(int, np.argwhere(got & (np.abs(res - 7.25) > 1e-9))[0]))
+                    ctx.fail(site, f"constant field not reproduced: {res[idx]} at {idx}", inp, None, tags={"cause": "constant", "layout": layout}, size=n_out)
+                if kind == "affine":
+                    exp = f_aff(tx, ty)
+                    bad = got & (np.abs(res - exp) > 1e-6 * 3.0)
+                    bad_known, bad_new = bad & miss2, bad & ~miss2
+                    if bad_known.any():
+                        idx = tuple(map(int, np.argwhere(bad_known)[0]))
+                        ctx.fail("bilinear._base._get_fractional_distances",
+                                 f"target pixel {idx} has no source pixel in its lower-right quadrant, yet gets the value {res[idx]:.6f} (affine field there: {exp[idx]:.6f}): "
+                                 f"the parallelogram branch ignores the fourth corner ({int(bad_known.sum())} such values)", inp, None, tags={"cause": "missing-corner"}, size=n_out)
+                    if bad_new.any():
+                        idx = tuple(map(int, np.argwhere(bad_new)[0]))
+                        ctx.fail(site, f"source lon/lats as {layout}: affine field of the target's projection coordinates not reproduced at {idx}: {res[idx]:.9f} vs {exp[idx]:.9f} "
+                                 f"({int(bad_new.sum())} of {int(got.sum())} values, max error {float(np.abs(res - exp)[bad_new].max()):.3g} for a data range of 3)", inp,
+                                 {"n": int(bad_new.sum()), "location": list(idx), "got": float(res[idx]), "expected": float(exp[idx])},
+                                 tags={"cause": "affine", "field": kind, "layout": layout}, size=n_out)
+                if layout == "c_contiguous":
+                    ref[kind] = res
+                elif kind in ref:
+                    r_ = ref[kind]
+                    with np.errstate(all="ignore"):
+                        dif = (np.isnan(res) != np.isnan(r_)) | (~np.isnan(r_) & (np.abs(res - r_) > 1e-9 * (1 + np.abs(r_))))
+                    if dif.any():
+                        idx = tuple(map(int, np.argwhere(dif)[0]))
+                        ctx.fail(site, f"{kind} field: the result depends on the memory layout of the source lon/lat arrays: {res[idx]} at {idx} with {layout} arrays, "
+                                 f"{r_[idx]} with C-contiguous copies of the same arrays ({int(dif.sum())} of {n_out} positions)", inp,
+                                 {"n": int(dif.sum()), "location": list(idx), "got": float(res[idx]), "c_contiguous": float(r_[idx])},
+                                 tags={"cause": "layout", "field": kind, "layout": layout}, size=n_out)
+                # the xarray / dask resampler on the same source
+                if layout == "c_contiguous" or kind == "constant" or (ctx.quick and kind != "affine"):
+                    continue
+                chunkings = [(-1, -1), (7, 11)] if not ctx.quick else [rng.choice([(-1, -1), (7, 11), (5, 5)])]
+                for ch in chunkings:
+                    gch = rng.choice([4096, 9])
+                    X.CHUNK_SIZE = gch
+                    inpx = {**inp, "resampler": "XArrayBilinearResampler", "data_chunks": list(ch), "CHUNK_SIZE": gch}
+                    try:
+                        with warnings.catch_warnings(), np.errstate(all="ignore"), dask.config.set(scheduler="synchronous"):
+                            warnings.simplefilter("ignore")
+                            xrs = XArrayBilinearResampler(src, tgt, radius, neighbours=neighbours, reduce_data=False)
+                            cy, cx = (shape[0] if ch[0] == -1 else ch[0]), (shape[1] if ch[1] == -1 else ch[1])
+                            xd = xr.DataArray(da.from_array(data, chunks=(cy, cx)), dims=("y", "x"))
+                            out = np.asarray(xrs.resample(xd, fill_value=np.nan).values, float).reshape(tgt.shape)
+                    except Exception as e:  # noqa
+                        ctx.fail("bilinear.XArrayBilinearResampler.resample", f"raised {type(e).__name__}: {str(e)[:150]} for source lon/lats in layout {layout}", inpx, None,
+                                 tags={"cause": "raises", "layout": layout}, size=n_out)
+                        continue
+                    finally:
+                        X.CHUNK_SIZE = 4096
+                    ctx.case("layout-values", (label, layout, data_layout, kind, "xarray", ch, gch), nontrivial=bool(not lons.flags["C_CONTIGUOUS"]))
+                    with np.errstate(all="ignore"):
+                        dif = (np.isnan(out) != np.isnan(res)) | (~np.isnan(res) & (np.abs(out - res) > 1e-6 * (1 + hi - lo)))
+                    if dif.any():
+                        idx = tuple(map(int, np.argwhere(dif)[0]))
+                        ctx.fail("bilinear.XArrayBilinearResampler.resample", f"{kind} field, source lon/lats as {layout}: xarray result {out[idx]} at {idx}, numpy result {res[idx]} "
+                                 f"({int(dif.sum())} of {n_out} positions)", inpx, {"n": int(dif.sum()), "location": list(idx), "xarray": float(out[idx]), "numpy": float(res[idx])},
+                                 tags={"cause": "numpy-vs-xarray-layout", "field": kind, "layout": layout}, size=n_out)
+
+
 def run(ctx):
     import traceback
-    for suite in (suite_solver, suite_corners, suite_resample, suite_resamplers):
+    for suite in (suite_solver, suite_corners, suite_resample, suite_resamplers, suite_source_memory_layout):
         try:
             suite(ctx)
         except Exception as e:  # noqa
